@@ -63,7 +63,7 @@ func c15File(itemPerm []int, intra [2]bool, msgPerm []int) *dsl.File {
 		perm.Fields = append(perm.Fields, fs...)
 	}
 	leaf := &dsl.Message{Name: "Leaf", Comment: " Leaf is small", Fields: []*dsl.Field{{Name: "S", Num: 1, T: dsl.String}, {Name: "I", Num: 2, T: dsl.Int32}}}
-	twin := &dsl.Message{Name: "Twin", Comment: " Twin is a second root", Fields: []*dsl.Field{{Name: "Who", Num: 1, T: dsl.String}, {Name: "Inner", Num: 2, T: dsl.Msg, Ref: "Leaf", Nullable: dsl.B(false)}, {Name: "Count", Num: 3, T: dsl.Int64}}}
+	twin := &dsl.Message{Name: "Twin", Comment: " Twin is a second root", Fields: []*dsl.Field{{Name: "Who", Num: 1, T: dsl.String}, {Name: "Inner", Num: 2, T: dsl.Msg, Ref: "Leaf", Nullable: dsl.B(false)}, {Name: "Count", Num: 3, T: dsl.Int64}, {Name: "Nest", Num: 4, T: dsl.Msg, Ref: "Leaf", Comment: " Nest of the twin (same field name and type as Perm.Nest)"}}}
 	unused := &dsl.Message{Name: "Bystander", Fields: []*dsl.Field{{Name: "B", Num: 1, T: dsl.Bool}}}
 	msgs := []*dsl.Message{perm, leaf, twin, unused}
 	f := &dsl.File{GettersOff: true}
